@@ -32,7 +32,8 @@ CONSTANTS
   DefClass,     \* definable type id -> "value" | "resource"
   DefDeps,      \* definable type id -> set of type ids it directly references
   NameInfo,     \* extern name -> [base, ver, pre, build]   (see Names.tla)
-  NodeIds       \* finite pool of node identifiers (naturals)
+  NodeIds,      \* finite pool of node identifiers (naturals)
+  OpKinds       \* the operation names a model explores (a sub-model may leave some out)
 
 NONE == "-"
 
@@ -190,7 +191,7 @@ AllExportNames == UNION {SeqNames(PkgExports[p]) : p \in Pkgs}
                   \cup {"bogus"}
 
 \* every operation a caller can issue with live identifiers
-Candidates(st) ==
+AllCandidates(st) ==
   {Op("register", 0, 0, p, NONE) : p \in Pkgs}
   \cup {Op("unregister", 0, 0, p, NONE) : p \in st.reg}
   \cup {Op("define_type", 0, 0, nm, t) : nm \in DefNames, t \in DefTypes}
@@ -203,6 +204,7 @@ Candidates(st) ==
   \cup {Op("unexport", n, 0, NONE, NONE) : n \in Live(st)}
   \cup {Op("set_name", n, 0, NONE, NONE) : n \in Live(st)}
   \cup {Op("remove", n, 0, NONE, NONE) : n \in Live(st)}
+Candidates(st) == {o \in AllCandidates(st) : o.op \in OpKinds}
 
 (***************************************************************************)
 (* Queries.                                                                *)
@@ -237,53 +239,89 @@ SameGroup(a, b) == a = b \/ OnSameTrack(NameInfo[a], NameInfo[b])
 MergeConflict(st) ==
   \E r1, r2 \in Requirements(st) : SameGroup(r1.name, r2.name) /\ ~Mergeable(r1.kind, r2.kind)
 
+\* Unspecified by the documentation (DESIGN.md Appendix C): an *explicit* import whose name lies on
+\* the semver track of an unsatisfied argument with a different name.  The text speaks of sharing
+\* only for unsatisfied arguments; any of {conflict error, two separate imports, one shared import
+\* named for the highest version} is consistent with it.
+ExplicitOnTrack(st) ==
+  \E x \in ImportedNames(st), a \in GraphImportsImplicit(st) :
+     x # a /\ OnSameTrack(NameInfo[x], NameInfo[a])
+
 EncodeOutcome(st) ==
   LET errs == (IF HasCycle(st) THEN {"GraphContainsCycle"} ELSE {})
               \cup (IF ImplicitConflict(st) THEN {"ImplicitImportConflict"} ELSE {})
               \cup (IF MergeConflict(st) THEN {"ImportTypeMergeConflict"} ELSE {})
-  IN IF errs = {} THEN {"ok"} ELSE errs
+  IN IF ExplicitOnTrack(st)
+     THEN (IF errs = {} THEN {"ok"} ELSE errs) \cup {"ImplicitImportConflict", "ImportTypeMergeConflict"}
+     ELSE IF errs = {} THEN {"ok"} ELSE errs
 
 (***************************************************************************)
 (* Encoding: the abstract component an encodable graph denotes (C02, C03). *)
 (* Items are provenance terms, so the comparison with the decoded output   *)
 (* is independent of index numbering and of emission order.                *)
+(* `shared` selects the reading of the unspecified case above: FALSE keeps *)
+(* explicit imports apart, TRUE lets them share the import of their track. *)
 (***************************************************************************)
-\* all names that become imports of the output
-AllImportNames(st) == GraphImportsImplicit(st) \cup ImportedNames(st)
-\* the import that realises name a: the highest version on its track (the name itself otherwise)
-Canonical(st, a) ==
-  LET grp == {b \in GraphImportsImplicit(st) : SameGroup(a, b)} \cup {a}
+\* the names that take part in the sharing of a's import
+Group(st, a, shared) ==
+  {b \in GraphImportsImplicit(st) \cup (IF shared THEN ImportedNames(st) ELSE {}) : SameGroup(a, b)} \cup {a}
+\* the import that realises name a: the highest version of its group (the name itself otherwise)
+Canonical(st, a, shared) ==
+  LET grp == Group(st, a, shared)
   IN CHOOSE b \in grp : \A c \in grp : c = b \/ VerLess(NameInfo[c].ver, NameInfo[b].ver)
                                         \/ NameInfo[c].ver = NameInfo[b].ver
 
 RECURSIVE MergeAll(_, _)
 MergeAll(k, S) == IF S = {} THEN k
                   ELSE LET x == CHOOSE y \in S : TRUE IN MergeAll(Merge(k, x), S \ {x})
-\* the kind of the shared implicit import named c (c canonical)
-ImplicitKind(st, c) ==
-  LET ks == {r.kind : r \in {q \in Requirements(st) : SameGroup(q.name, c)}}
+\* the kinds required of the import named c (c canonical)
+GroupKinds(st, c, shared) ==
+  {r.kind : r \in {q \in Requirements(st) : SameGroup(q.name, c)}}
+  \cup (IF shared THEN {st.nodes[ImportNodeOf(st, x)].item : x \in {y \in ImportedNames(st) : SameGroup(y, c)}}
+        ELSE {})
+GroupKind(st, c, shared) ==
+  LET ks == GroupKinds(st, c, shared)
       k0 == CHOOSE k \in ks : TRUE
   IN MergeAll(k0, ks \ {k0})
+\* the shared reading exists only if every group can be merged
+SharedPossible(st) ==
+  \A a \in GraphImportsImplicit(st) \cup ImportedNames(st) :
+     \A k1, k2 \in GroupKinds(st, a, TRUE) : Mergeable(k1, k2)
 
-RECURSIVE Term(_, _)
-Term(st, n) ==
+RECURSIVE Term(_, _, _)
+Term(st, n, shared) ==
   LET node == st.nodes[n] IN
-  CASE node.k = "imp"   -> [t |-> "import", name |-> node.imp]
+  CASE node.k = "imp"   -> [t |-> "import", name |-> IF shared THEN Canonical(st, node.imp, TRUE) ELSE node.imp]
     [] node.k = "def"   -> [t |-> "def", id |-> node.item.id]
     [] node.k = "alias" -> LET a == CHOOSE x \in st.aliases : x.node = n
-                           IN [t |-> "alias", of |-> Term(st, a.src), exp |-> a.exp]
+                           IN [t |-> "alias", of |-> Term(st, a.src, shared), exp |-> a.exp]
     [] node.k = "inst"  ->
          [t |-> "inst", pkg |-> node.pkg,
-          args |-> {[a |-> x.arg, v |-> Term(st, x.src)] : x \in {y \in st.args : y.inst = n}}
-                   \cup {[a |-> u, v |-> [t |-> "import", name |-> Canonical(st, u)]] : u \in UnsatisfiedArgs(st, n)}]
+          args |-> {[a |-> x.arg, v |-> Term(st, x.src, shared)] : x \in {y \in st.args : y.inst = n}}
+                   \cup {[a |-> u, v |-> [t |-> "import", name |-> Canonical(st, u, shared)]]
+                           : u \in UnsatisfiedArgs(st, n)}]
 
-\* defined only when EncodeOutcome(st) = {"ok"}
-EncodeOf(st) ==
-  [imports |-> {[name |-> x, kind |-> st.nodes[ImportNodeOf(st, x)].item, explicit |-> TRUE] : x \in ImportedNames(st)}
-               \cup {[name |-> c, kind |-> ImplicitKind(st, c), explicit |-> FALSE]
-                       : c \in {Canonical(st, a) : a \in GraphImportsImplicit(st)}},
-   insts |-> {[id |-> n, term |-> Term(st, n)] : n \in InstNodes(st)},
+\* defined only when "ok" \in EncodeOutcome(st)
+EncodeOfM(st, shared) ==
+  [imports |-> (IF shared THEN {}
+                ELSE {[name |-> x, kind |-> st.nodes[ImportNodeOf(st, x)].item] : x \in ImportedNames(st)})
+               \cup {[name |-> c, kind |-> GroupKind(st, c, shared)]
+                       : c \in {Canonical(st, a, shared)
+                                  : a \in GraphImportsImplicit(st) \cup (IF shared THEN ImportedNames(st) ELSE {})}},
+   insts |-> {[id |-> n, term |-> Term(st, n, shared)] : n \in InstNodes(st)},
    pkgs |-> {st.nodes[n].pkg : n \in InstNodes(st)},
-   exports |-> {[name |-> x, term |-> Term(st, st.exports[x])] : x \in DOMAIN st.exports},
-   names |-> {[id |-> n, term |-> Term(st, n), sort |-> st.nodes[n].item.c] : n \in {m \in Live(st) : st.nodes[m].named}}]
+   exports |-> {[name |-> x, term |-> Term(st, st.exports[x], shared),
+                 \* the kind of the designated item (an explicit import that shares the import of
+                 \* its track has that import's merged kind)
+                 kind |-> LET node == st.nodes[st.exports[x]]
+                          IN IF shared /\ node.k = "imp" THEN GroupKind(st, Canonical(st, node.imp, TRUE), TRUE)
+                             ELSE node.item]
+                  : x \in DOMAIN st.exports},
+   names |-> {[id |-> n, term |-> Term(st, n, shared), sort |-> st.nodes[n].item.c]
+                : n \in {m \in Live(st) : st.nodes[m].named}}]
+
+\* the abstract components the contract allows for an encodable state
+EncodeOf(st) ==
+  {EncodeOfM(st, FALSE)}
+  \cup (IF ExplicitOnTrack(st) /\ SharedPossible(st) THEN {EncodeOfM(st, TRUE)} ELSE {})
 ====
